@@ -97,6 +97,34 @@ func c20Request(did dtypes.DeploymentID, mf manifest.Manifest, ch chan error) ma
 	return req
 }
 
+// c20Hostnames wraps the hostname service so that the schedule can keep the manager busy inside
+// its availability check (the manager is then out of its select loop).
+type c20Hostnames struct {
+	*cluster.SimpleHostnames
+	mu      sync.Mutex
+	gate    chan struct{} // non-nil: availability checks wait for it to be closed
+	entered chan struct{}
+}
+
+func (h *c20Hostnames) CanReserveHostnames(hostnames []string, did dtypes.DeploymentID) <-chan error {
+	h.mu.Lock()
+	g := h.gate
+	h.mu.Unlock()
+	if g == nil {
+		return h.SimpleHostnames.CanReserveHostnames(hostnames, did)
+	}
+	out := make(chan error, 1)
+	select {
+	case h.entered <- struct{}{}:
+	default:
+	}
+	go func() {
+		<-g
+		out <- <-h.SimpleHostnames.CanReserveHostnames(hostnames, did)
+	}()
+	return out
+}
+
 type c20Sub struct {
 	id      int
 	ch      chan error
@@ -151,7 +179,7 @@ func c20Machine(t *rapid.T, prop string) {
 		cm := &clientmocks.Client{}
 		cm.On("Query").Return(q)
 		sess := session.New(log.NewNopLogger(), cm, &ptypes.Provider{Owner: provider.String()})
-		hostnames := &cluster.SimpleHostnames{Hostnames: map[string]dtypes.DeploymentID{"taken.example.com": {Owner: "someone-else", DSeq: 1}}}
+		hostnames := &c20Hostnames{SimpleHostnames: &cluster.SimpleHostnames{Hostnames: map[string]dtypes.DeploymentID{"taken.example.com": {Owner: "someone-else", DSeq: 1}}}, entered: make(chan struct{}, 1)}
 		svc := &service{session: sess, bus: bus, lc: lifecycle.New(), managerch: make(chan *manager, 4), hostnameService: hostnames,
 			config: ServiceConfig{HTTPServicesRequireAtLeastOneHost: rapid.IntRange(0, 3).Draw(t, "requireHost") == 0}}
 		m := newManager(svc, did)
@@ -311,7 +339,7 @@ func c20Machine(t *rapid.T, prop string) {
 			if dataState == "none" {
 				takeFetch(0) // a fetch may have been started by an earlier step
 			}
-			act := rapid.IntRange(0, 13).Draw(t, "action")
+			act := rapid.IntRange(0, 14).Draw(t, "action")
 			if i == 0 && rapid.IntRange(0, 3).Draw(t, "startWithLease") > 0 {
 				act = 0
 			}
@@ -447,6 +475,82 @@ func c20Machine(t *rapid.T, prop string) {
 				barrier("lease removed")
 				collectReplies("lease removed", false)
 				checkAnnouncements("lease removed")
+			case 14: // two version updates arrive while the manager is busy checking hostnames for an accepted manifest
+				if len(leases) == 0 || dataState != "have" || pendingFetch != nil || outstanding() > 0 {
+					continue
+				}
+				mf := c20Manifest(len(updates), "", 2, false)
+				if svc.config.HTTPServicesRequireAtLeastOneHost {
+					mf[0].Services[0].Expose[0].Hosts = []string{"free.example.com"}
+				}
+				h, _ := sdl.ManifestVersion(mf)
+				if string(h) != string(expectedVersion()) {
+					continue // the recorded version is that of a manifest which does not fit the groups
+				}
+				gate := make(chan struct{})
+				hostnames.mu.Lock()
+				hostnames.gate = gate
+				hostnames.mu.Unlock()
+				open := func() {
+					hostnames.mu.Lock()
+					hostnames.gate = nil
+					hostnames.mu.Unlock()
+					close(gate)
+				}
+				bs := &c20Sub{id: nextSub, ch: make(chan error, 1), kind: "valid-while-updates-arrive", hash: h, valid: true, m: mf}
+				nextSub++
+				subs = append(subs, bs)
+				note("submit#%d(valid; hostname check held)", bs.id)
+				m.handleManifest(c20Request(did, mf, bs.ch))
+				select {
+				case <-hostnames.entered:
+				case <-time.After(c20Wait):
+					open()
+					fail("c20-manager-blocked", "a valid, matching submission did not reach the hostname check within %v", c20Wait)
+				}
+				var nvs [][]byte
+				for k := 1; k <= 2; k++ {
+					mm := c20Manifest(len(updates)+k, "", 2, false)
+					if svc.config.HTTPServicesRequireAtLeastOneHost {
+						mm[0].Services[0].Expose[0].Hosts = []string{"free.example.com"}
+					}
+					nv, _ := sdl.ManifestVersion(mm)
+					nvs = append(nvs, nv)
+				}
+				delivered := make(chan struct{})
+				go func() { // like the service loop: one update after the other
+					m.handleUpdate(nvs[0])
+					m.handleUpdate(nvs[1])
+					close(delivered)
+				}()
+				note("version-updated(#%d,#%d) while busy", len(updates)+1, len(updates)+2)
+				select {
+				case <-delivered: // accepted without the manager looking (a buffered hand-off)
+				case <-time.After(30 * time.Millisecond):
+				}
+				open()
+				select {
+				case <-delivered:
+				case <-time.After(c20Wait):
+					fail("c20-manager-blocked", "two version updates handed over while the manager was busy were not taken within %v after it became free", c20Wait)
+				}
+				// the held submission was validated before the updates: it is accepted
+				select {
+				case e := <-bs.ch:
+					bs.replied = true
+					if e != nil {
+						fail("c20-rejected-wrongly", "submission #%d (valid, hash equal to the version expected when it was validated) was REJECTED: %v", bs.id, e)
+					}
+					lastValidated = bs
+				case <-time.After(c20Wait):
+					fail("c20-no-reply", "submission #%d got no reply %v after the hostname check was released", bs.id, c20Wait)
+				}
+				updates = append(updates, nvs...)
+				interesting = true
+				gateInteresting = true
+				barrier("updates while busy")
+				collectReplies("updates while busy", false)
+				checkAnnouncements("updates while busy")
 			default: // deployment closed / shutdown
 				if outstanding() > 0 {
 					interesting = true
